@@ -16,7 +16,9 @@ Inductive opname :=
 | Op_date_addm | Op_dt_addm | Op_date_ms | Op_dt_ms
 | Op_dt_set | Op_dt_clear | Op_time_set | Op_time_clear | Op_date_set | Op_date_clear | Op_dt_get
 | Op_dt_set_offset | Op_dt_as_offset | Op_time_set_offset | Op_time_as_offset | Op_offset_from_seconds | Op_offset_from_hms
-| Op_dt_from_ymdhms | Op_dt_from_hms | Op_date_info | Op_dt_info.
+| Op_dt_from_ymdhms | Op_dt_from_hms | Op_date_info | Op_dt_info
+(* cron *)
+| Op_cron_parse | Op_cron_next.
 
 Inductive obs :=
 | OOk (zs : list Z) (ss : list (list Z))
